@@ -71,17 +71,17 @@ def run_section(body, n_pages):
             renderer=NS(render=lambda d, p: [("RENDER", p.processed.tag)]),
             _apply_data_post_processing=post)
     saved_reg = dict(StrategyRegistry._strategies)
-    saved = (ue.pl, ue.PaginationContext, ue.PageContext)
+    import polars as _real_polars
+    from rtflite.pagination.strategies.base import PageContext as _RealPC, PaginationContext as _RealPGC
+    saved = swapped((_real_polars, NS(DataFrame=FakeFrame)), (_RealPGC, lambda **kw: NS(**kw)), (_RealPC, lambda **kw: NS(tag="empty", **kw)))
     StrategyRegistry._strategies.update({"default": mk("default"), "page_by": mk("page_by"), "subline": mk("subline")})
-    ue.pl = NS(DataFrame=FakeFrame)
-    ue.PaginationContext = lambda **kw: NS(**kw)
-    ue.PageContext = lambda **kw: NS(tag="empty", **kw)
+    saved.__enter__()
     try:
         df = FakeFrame({c: [c + "0", c + "1"] for c in COLS})
         doc = NS(rtf_page=NS(col_width=6.0), rtf_body=body)
         out = UnifiedRTFEncoder._encode_body_section(me, doc, df, body)
     finally:
-        ue.pl, ue.PaginationContext, ue.PageContext = saved
+        saved.__exit__()
         StrategyRegistry._strategies.clear()
         StrategyRegistry._strategies.update(saved_reg)
     return seen, out
